@@ -125,8 +125,8 @@ func indexOf(s string, ch byte) int {
 }
 
 const (
-	runBudget = 60000000
-	opBudget  = 6000000
+	runBudget = 90000000
+	opBudget  = 12000000
 )
 
 func (p *Prop) Run(t *simhook.Tape, opt simkit.RunOpt) *simkit.RunResult {
@@ -176,6 +176,9 @@ func (p *Prop) Run(t *simhook.Tape, opt simkit.RunOpt) *simkit.RunResult {
 	if c.pl.huge != nil && ntasks > 4 {
 		// a call on the huge slice costs ~25 yields per element: keep the run within its step budget
 		ntasks = 4
+	}
+	if len(c.pl.huge) > 100000 && ntasks > 2 {
+		ntasks = 2
 	}
 	for tk := 0; tk < ntasks; tk++ {
 		var lst []int
@@ -344,7 +347,10 @@ func (p *Prop) Run(t *simhook.Tape, opt simkit.RunOpt) *simkit.RunResult {
 			}
 		}
 	}
-	if abort != nil && c.sh.getViol() == nil {
+	if abort != nil && !simkit.AbortIsVerdict(abort) {
+		rr.BudgetHit = true
+	}
+	if simkit.AbortIsVerdict(abort) && c.sh.getViol() == nil {
 		c.sh.setViol(&simkit.Violation{Property: "C20", Oracle: "C20/no-progress", Op: "run", Message: abort.Reason + abort.Where()})
 		rr.BudgetHit = true
 	}
@@ -494,7 +500,7 @@ func (c *runCtx) concurrent(t *simhook.Tape, ntasks int) (*concResult, *simhook.
 	for tk := 0; tk < ntasks; tk++ {
 		fns[tk] = func(id int) {
 			for _, ci := range c.pln.taskCalls[id] {
-				if c.sh.stopped() {
+				if c.sh.stopped() || simhook.OverBudget() {
 					return
 				}
 				c.sh.enter(id, c.pln.calls[ci].name, ntasks)
